@@ -128,7 +128,7 @@ def sanitized_other_drivers(ev, unknown, tier):
     for fam, cfg, zp in ((0, "MC_PersistenceMatrix_z2.cfg", False), (1, "MC_Vineyard_z2.cfg", False)):
         mb, jobs = pm_common.build(fam, cols, zp=zp, sanitize="address,undefined")
         r = vf.tlc("MC_PersistenceMatrix", cfg, workers=1, timeout=1100)
-        g = vf.StateGraph.from_tlc(r.outfile, init_id={"f": []})
+        g = vf.StateGraph.from_tlc(r.outfile, init_id={"f": [], "h": {"rem": False, "swp": False}})
         os.remove(r.outfile)
         work = os.path.join(vf.BUILD, "work", "%s_san_pm%d_%d" % (PROP, fam, os.getpid()))
         env = dict(ASAN_ENV)
